@@ -181,7 +181,9 @@ def run_stage(stage, tier, seed, out, replay_scenarios=None):
         keyfn, obsfn = stage.pairing
         groups = {}
         for t in traces:
-            groups.setdefault(json.dumps(keyfn(t['scn']), sort_keys=True), []).append(t)
+            kk = keyfn(t['scn'])
+            if kk is not None:
+                groups.setdefault(json.dumps(kk, sort_keys=True), []).append(t)
         pairs = []
         for key, ts in groups.items():
             ref = ts[0]
